@@ -175,14 +175,12 @@ def holdsCtxOffset (i : Input) (T : Table) : Bool :=
 def tableOf (P : Program) (ls : List Lookup) (qs : List Query) : Table :=
   qs.filterMap (fun q => (attach P ls q.1 q.2.1 q.2.2).map (fun d => (q, d)))
 
-/-- inputs on which the writer's class naming is injective and the abvm split covers every glyph:
-    every '_'-prefixed anchor name consists of characters that survive ast.makeFeaClassName (so that different mark
-    anchor names give different mark class names); glyph names are distinct; the feature file defines no mark class of
-    its own (with hand-written classes the generated class names, and so which candidate wins, depend on them: covered by
-    the correspondence run and the predicates on observed fonts only) -/
+/-- inputs of the theorems: glyph names are distinct; the abvm split covers every glyph; the feature file defines no mark
+    class of its own (with hand-written classes the generated class names, and so which candidate wins, depend on them:
+    covered by the correspondence run and the predicates on observed fonts only).  Anchor names are arbitrary: two names that
+    ast.makeFeaClassName reduces to the same class name ('top-alt' / 'topalt') get different classes (C06_classes_injective). -/
 def wf0 (i : Input) : Bool :=
   i.pre.isEmpty &&
-  i.glyphs.all (fun g => g.anchors.all (fun a => a.name.toList.head? != some '_' || sanitize a.name == a.name)) &&
   decide ((i.glyphs.map (·.name)).Nodup) &&
   i.glyphs.all (fun g => i.abvm.contains g.name || i.notAbvm.contains g.name)
 
